@@ -73,6 +73,8 @@ enum Cause {
     MalformedRepe(u8),
     InlinePanic,
     ConnectPanic,
+    /// the inline handler itself cancels the embedder's ShutdownToken (embedder mode; elsewhere it survives)
+    CancelInside,
     /// stays up until the run-level event (embedder cancel / drain / client close at the end)
     Survive,
 }
@@ -139,8 +141,16 @@ fn build_server(sh: &Arc<Shared>, limits: WebSocketLimits) -> WebSocketServer {
     let (s1, s2, s3) = (sh.clone(), sh.clone(), sh.clone());
     let router = Router::new()
         .with_json("/echo", |v: Value| Ok(json!({"echo": v})))
-        .with_json_ctx("/act", move |_ctx, v: Value| {
-            s1.act(v["conn"].as_u64().unwrap_or(0), v["act"].as_str().unwrap_or(""));
+        .with_json_ctx("/act", move |ctx, v: Value| {
+            let act = v["act"].as_str().unwrap_or("");
+            s1.act(v["conn"].as_u64().unwrap_or(0), act);
+            // an inline handler that is running when the embedder cancels sees it too
+            if act == "cancel" && s1.mode == Mode::Embedder {
+                simkernel::count("probe.cancel_from_inside_inline_handler");
+                if !ctx.is_cancelled() {
+                    s1.hook_faults.lock().unwrap().push("an inline handler still running after the embedder's ShutdownToken was cancelled saw is_cancelled() == false".to_string());
+                }
+            }
             Ok(json!({"acted": true}))
         })
         .with_json_ctx("/burst", move |ctx, v: Value| {
@@ -241,7 +251,7 @@ fn draw_plan(mode: Mode) -> Plan {
     let handshake = if mode != Mode::Adopted && simkernel::choose(8) == 0 { pick(&[Handshake::WrongPath, Handshake::Garbage, Handshake::EofMidway]) } else { Handshake::Ok };
     let phase = pick(&[Phase::Idle, Phase::Idle, Phase::InlineRunning, Phase::OffReaderParked, Phase::OffReaderParked, Phase::OutboundBusy, Phase::DuringConnect]);
     let cause = match phase {
-        Phase::InlineRunning => pick(&[Cause::Rst, Cause::InlinePanic, Cause::InlinePanic]),
+        Phase::InlineRunning => pick(&[Cause::Rst, Cause::InlinePanic, Cause::InlinePanic, Cause::CancelInside]),
         Phase::DuringConnect => pick(&[Cause::Rst, Cause::ConnectPanic, Cause::ConnectPanic]),
         _ => match simkernel::choose(13) {
             12 => Cause::InlinePanic,
@@ -317,7 +327,11 @@ async fn client(case: Case, sh: Arc<Shared>, conn: u64, ws: crate::families::ws_
         }
         Phase::InlineRunning => {
             next_id += 1;
-            let act = if plan.cause == Cause::Rst { "reset" } else { "panic" };
+            let act = match plan.cause {
+                Cause::Rst => "reset",
+                Cause::CancelInside => "cancel",
+                _ => "panic",
+            };
             let body = serde_json::to_vec(&json!({"conn": conn, "act": act})).unwrap();
             let _ = send_frame(&mut sink, &Frame::new(next_id, b"/act", &body).with_formats(1, 2)).await;
             case.probe("exit_from_inside_inline_handler");
@@ -406,7 +420,7 @@ async fn client(case: Case, sh: Arc<Shared>, conn: u64, ws: crate::families::ws_
         }
         _ => {}
     }
-    if plan.cause == Cause::Survive && collector.is_none() {
+    if matches!(plan.cause, Cause::Survive | Cause::CancelInside) && collector.is_none() {
         // still not reading: the backlog must be there when the run-level event arrives
         simkernel::count("probe.backlog_held_through_run_level_event");
         wait_until(60_000, || RUN_END.load(Ordering::SeqCst)).await;
@@ -417,7 +431,7 @@ async fn client(case: Case, sh: Arc<Shared>, conn: u64, ws: crate::families::ws_
     if collector.is_none() {
         collector = Some(spawn_collector(stream.take().unwrap(), inbox.clone()));
     }
-    if plan.cause == Cause::Survive {
+    if matches!(plan.cause, Cause::Survive | Cause::CancelInside) {
         // kept open until the run-level event; hand the sink to the caller by leaking it into
         // a task that closes it when the run says so
         return finish_survivor(sh, inbox, gate_tag, sink, collector.unwrap()).await;
